@@ -20,7 +20,7 @@ TARGETS = ['C13/Props.vo', 'C13/Corr.vo']
 MODEL_TARGETS = ['C13/Corr.vo']
 PROPS_FILE = 'C13/Props.v'
 PROPS_MODULE = 'QV.C13.Props'
-CORR_IMPORTS = ['QV.C13.Model', 'QV.C13.Pure', 'QV.C13.Spec', 'QV.C13.Corr']
+CORR_IMPORTS = ['QV.C13.Model', 'QV.C13.Pure', 'QV.C13.Spec', 'QV.C13.Heap', 'QV.C13.TEq', 'QV.C13.Corr']
 CHECK_CORR = 'check_corr'
 CHECK_SPEC = 'check_spec'
 SHARD = 200
@@ -155,9 +155,16 @@ def _e_eval(e, env, strict):
     return r
 
 
+def c_float(v):
+    """the constant is a sympy Float inside an expression (built from a Python / numpy float)"""
+    return '@' in v and v.split('@')[1] in ('f', 'n')
+
+
 def e_str(e):
     if e[0] == 'c':
         f = V(e[1])
+        if c_float(e[1]):
+            return '(%r)' % float(f)                  # a float literal: sympy holds a Float
         return '(%d)' % f.numerator if f.denominator == 1 else '(%d/%d)' % (f.numerator, f.denominator)
     if e[0] == 'v':
         return e[1]
@@ -858,6 +865,339 @@ def history_bounded(s, ops):
     return True
 
 
+# ---- round 4: change_constants through JointScope entries over DIFFERENT roots / through a loop index that shadows the
+# changed constant (deterministic; the classes of seeds C13-5 and C13-6)
+
+def r4_history(s, changes):
+    """views and volatile queries, then every change of `changes` in turn, each followed by lookups of every name, the
+    dictionary views, the volatile queries and == / hash against the permuted twin of the rebuilt scope"""
+    dom = s_domain(s)
+    gets = [['get', n] for n in dom[:5]] + [['get', 'p7']]
+    base = merged_roots(s)
+    envs = [sorted(base.items())] + [sorted(dict(base, **dict(c)).items()) for c in changes[:2]]
+    ops = [['as_dict']] + gets + [['vol'], ['volx', envs], ['items']]
+    cur = s
+    for c in changes:
+        ops.append(['change', [list(x) for x in c]])
+        cur = s_rebuild(cur, dict(c))
+        ops += gets + [['as_dict'], ['items'], ['vol'], ['volx', [sorted(merged_roots(cur).items())]],
+                       ['eq', s_permuted(cur, lambda l: l.reverse()), 'perm']]
+    ops += [['len'], ['iter'], ['keys']]
+    return ops
+
+
+def fam_joint_roots(full):
+    """JointScope entries over sub scopes with DIFFERENT DictScope roots (each root has its own volatile constants; p1 is
+    a shared non-volatile name with one value), every entry in three forms (the root itself / a MappedScope over it / a
+    RangeScope over a MappedScope over it), change_constants touching only the constants of the root at ONE position
+    of the lookup (first / middle / last), of none, of two; also two entries over one root next to an entry over another
+    root, and the joint scope below a MappedScope / RangeScope"""
+    A = {'t': 'dict', 'vals': [['p0', '1'], ['p1', '2']], 'vol': ['p0']}
+    B = {'t': 'dict', 'vals': [['p2', '3'], ['p1', '2']], 'vol': ['p2']}
+    C = {'t': 'dict', 'vals': [['p3', '5'], ['p4', '0@f']], 'vol': ['p3', 'p4']}
+
+    def forms(root, v, fresh):
+        m = {'t': 'mapped', 'o': root, 'm': [[fresh, ['+', ['*', ['c', '10'], _v(v)], _v(root['vals'][1][0])]]]}
+        return [(v, root), (fresh, m), (fresh, {'t': 'range', 'i': m, 'n': 'p7', 'v': '1'})]
+    fa, fb, fc = forms(A, 'p0', 'p5'), forms(B, 'p2', 'p6'), forms(C, 'p3', 'p4')[:2]
+    ca, cb, cc_ = [['p0', '7']], [['p2', '0@f']], [['p3', '9@t'], ['p4', '1/2']]
+    out = []
+
+    def add(entries, changes, wrap=None):
+        s = {'t': 'joint', 'l': [[n, sub] for n, sub in entries]}
+        if wrap == 'mapped':
+            s = {'t': 'mapped', 'o': s, 'm': [['p7', ['+', _v(entries[0][0]), _v(entries[-1][0])]]]}
+        elif wrap == 'range':
+            s = {'t': 'range', 'i': s, 'n': entries[0][0], 'v': '4'}
+        ops = r4_history(s, changes)
+        if history_bounded(s, ops):
+            out.append({'kind': 'hist', 'scope': s, 'ops': ops, 'src': 'family4'})
+    none = [['p7', '1']]
+    for i, ea in enumerate(fa):
+        for j, eb in enumerate(fb):
+            for wrap in (None, 'mapped', 'range'):
+                if wrap and not full and (i + j) % 2:
+                    continue
+                add([ea, eb], [ca, cb], wrap)            # first only, then last only
+                add([ea, eb], [cb, none, ca], wrap)      # last only, nothing, first only
+                add([eb, ea], [cb, ca + cb], wrap)       # the other insertion order
+            for l, ec in enumerate(fc):
+                if not full and (i + j + l) % 2:
+                    continue
+                add([ea, eb, ec], [ca, cb, cc_])         # first / middle / last only
+                add([ea, eb, ec], [cb, ca + cb, none])   # middle only, first two, nothing
+                add([ec, ea, eb], [cc_, ca])             # rotated order
+    # two entries over ONE root (one object, or a mapped layer over it) next to an entry over another root
+    for eb in fb:
+        add([fa[0], fa[1], eb], [ca, cb])
+        add([eb, fa[1], fa[0]], [cb, ca])
+        add([fa[0], eb, fa[2]], [ca, none, cb])
+    return out
+
+
+def fam_shadow_change(full):
+    """a loop index named like a (volatile / plain) constant from which a MappedScope layer BELOW the loop derives a
+    parameter; change_constants of that constant (alone / with others / to zero of another number type), of other
+    constants, of nothing"""
+    root = {'t': 'dict', 'vals': [['p0', '1'], ['p1', '2'], ['p2', '3']], 'vol': ['p0', 'p2']}
+    M = lambda o, *kv: {'t': 'mapped', 'o': o, 'm': [list(p) for p in kv]}
+    R = lambda i, n, v: {'t': 'range', 'i': i, 'n': n, 'v': v}
+    x10 = ['+', ['*', ['c', '10'], _v('p0')], _v('p1')]
+    m1 = M(root, ('p5', x10))
+    stacks = [
+        R(m1, 'p0', '4'),
+        M(R(m1, 'p0', '4'), ('p6', ['+', _v('p5'), _v('p0')])),
+        R(R(m1, 'p0', '4'), 'p0', '6'),
+        R(M(root, ('p5', ['*', _v('p1'), ['c', '2']])), 'p1', '4'),                 # index = a NON-volatile constant
+        R(M(R(M(root, ('p5', ['+', _v('p0'), ['c', '1']])), 'p0', '2'), ('p6', ['+', _v('p5'), _v('p0')])), 'p0', '3'),
+        R({'t': 'joint', 'l': [['p5', m1], ['p0', root]]}, 'p0', '4'),
+        R(M(root, ('p0', ['+', _v('p0'), ['c', '1']]), ('p5', ['*', _v('p0'), ['c', '2']])), 'p0', '4'),
+        R(M(R(root, 'p0', '5'), ('p5', x10)), 'p2', '4'),                           # shadowed BELOW the mapping: no dependence
+    ]
+    changes = [
+        [[['p0', '7']], [['p2', '9']]],
+        [[['p0', '7'], ['p2', '9']], [['p0', '0@f']]],
+        [[['p2', '9']], [['p0', '7']], [['p0', '7']]],
+        [[['p0', '0@t']], [['p7', '1']], [['p0', '-2'], ['p2', '0']]],
+    ]
+    if full:
+        changes += [[[['p1', '8']], [['p0', '7']]], [[['p0', '7'], ['p1', '8']]]]    # a non-volatile constant (warns)
+    else:
+        changes[3] = changes[3] + [[['p1', '8'], ['p0', '3']]]
+    out = []
+    for s in stacks:
+        for ch in changes:
+            ops = r4_history(s, ch)
+            if history_bounded(s, ops):
+                out.append({'kind': 'hist', 'scope': s, 'ops': ops, 'src': 'family4'})
+    return out
+
+
+# ---- round 4: `==` / hash with the number KIND of constants, and between scopes of different classes
+
+def e_nconsts(e):
+    if e[0] == 'c':
+        return 1
+    if e[0] == 'v':
+        return 0
+    if e[0] == '/':
+        return e_nconsts(e[1]) + 1
+    return e_nconsts(e[1]) + e_nconsts(e[2])
+
+
+def _retag(v, tag):
+    base = v.split('@')[0]
+    if tag == 'i' and V(v).denominator != 1:
+        tag = 't'                    # numpy.int64 only for integral values; TimeType is exact as well
+    return base + ('@' + tag if tag else '')
+
+
+def e_retype(e, k, tag):
+    """e with its k-th constant (pre-order, the divisor of a `/` node last; k = None: every constant) given the tag"""
+    ctr = [0]
+
+    def hit():
+        ctr[0] += 1
+        return k is None or ctr[0] - 1 == k
+
+    def walk(x):
+        if x[0] == 'c':
+            return ['c', _retag(x[1], tag)] if hit() else x
+        if x[0] == 'v':
+            return x
+        if x[0] == '/':
+            a = walk(x[1])
+            return ['/', a, _retag(x[2], tag) if hit() else x[2]]
+        a = walk(x[1])
+        return [x[0], a, walk(x[2])]
+    return walk(e)
+
+
+def s_nmapconsts(s):
+    return sum(e_nconsts(e) for e in s_exprs(s))
+
+
+def s_retype_map(s, k, tag, only_toplevel=False):
+    """the scope with the k-th constant of its mapping expressions (order of s_exprs; None = all) given the tag;
+    only_toplevel: count only expressions that ARE a constant (those can be a TimeType / numpy integer)"""
+    ctr = [0]
+
+    def ex(e):
+        if only_toplevel:
+            if e[0] != 'c' or c_float(e[1]):
+                return e
+            ctr[0] += 1
+            return ['c', _retag(e[1], tag)] if (k is None or ctr[0] - 1 == k) else e
+        n = e_nconsts(e)
+        lo = ctr[0]
+        ctr[0] += n
+        if k is None:
+            return e_retype(e, None, tag)
+        return e_retype(e, k - lo, tag) if lo <= k < lo + n else e
+
+    def walk(x):
+        t = x['t']
+        if t == 'dict':
+            return x
+        if t == 'mapped':
+            m = [[n, ex(e)] for n, e in x['m']]            # s_exprs order: this layer first, then below
+            return {'t': 'mapped', 'o': walk(x['o']), 'm': m}
+        if t == 'range':
+            return {'t': 'range', 'i': walk(x['i']), 'n': x['n'], 'v': x['v']}
+        return {'t': 'joint', 'l': [[n, walk(sub)] for n, sub in x['l']]}
+    return walk(s)
+
+
+def s_retyped_consts(s, shift=0):
+    """the same scope with every DictScope constant / loop index value given in another number type (float, TimeType,
+    numpy.float64, numpy.int64 in turn): Python compares them by value"""
+    tags = ['f', 't', 'n', 'i']
+    ctr = [shift]
+
+    def rt(v):
+        ctr[0] += 1
+        return _retag(v, tags[ctr[0] % 4])
+
+    def walk(x):
+        t = x['t']
+        if t == 'dict':
+            return {'t': 'dict', 'vals': [[k, rt(v)] for k, v in x['vals']], 'vol': list(x['vol'])}
+        if t == 'mapped':
+            return {'t': 'mapped', 'o': walk(x['o']), 'm': x['m']}
+        if t == 'range':
+            return {'t': 'range', 'i': walk(x['i']), 'n': x['n'], 'v': rt(x['v'])}
+        return {'t': 'joint', 'l': [[k, walk(sub)] for k, sub in x['l']]}
+    return walk(s)
+
+
+def s_xclass(s):
+    """scopes of ANOTHER class that are as close to s as possible"""
+    out = []
+    if s['t'] == 'mapped':
+        out.append(s['o'])
+    if s['t'] == 'range':
+        out.append(s['i'])
+    if s['t'] == 'joint' and s['l']:
+        out.append(s['l'][0][1])
+    if s['t'] != 'mapped':
+        out.append({'t': 'mapped', 'o': s, 'm': []})                         # the same mapping, one empty layer more
+    dom = s_domain(s)
+    if s['t'] != 'joint' and dom:
+        out.append({'t': 'joint', 'l': [[n, s] for n in dom]})                # the same mapping as a joint scope
+    if s['t'] != 'range' and dom:
+        d = s_partial(s)
+        if dom[0] in d:
+            out.append({'t': 'range', 'i': s, 'n': dom[0], 'v': str(d[dom[0]])})    # ... with an index that changes nothing
+    try:
+        d = s_denote(s)
+    except OverflowError:
+        d = None
+    if s['t'] != 'dict' and d is not None:
+        out.append({'t': 'dict', 'vals': [[k, str(v)] for k, v in sorted(d.items())], 'vol': []})
+    return out
+
+
+def eqt_ok(s):
+    try:
+        for e in s_exprs(s):
+            tcanon(e)
+        return True
+    except (ValueError, RuntimeError, OverflowError):
+        return False
+
+
+def eqt_variants(s, rng, src):
+    """(variant name, other scope, must be equal)"""
+    import copy
+    out = [('same', copy.deepcopy(s), True),
+           ('perm', s_permuted(copy.deepcopy(s), lambda l: l.reverse()), True),
+           ('dictty', s_retyped_consts(s, 0), True), ('dictty', s_retyped_consts(s, 1), True)]
+    n_top = sum(1 for e in s_exprs(s) if e[0] == 'c' and not c_float(e[1]))
+    if n_top:
+        out.append(('mapty-exact', s_retype_map(s, None, 't', only_toplevel=True), True))
+        out.append(('mapty-exact', s_retype_map(s, rng.randrange(n_top), 'i', only_toplevel=True), True))
+    n = s_nmapconsts(s)
+    if n:
+        out.append(('mapty-float', s_retype_map(s, 0, 'f'), False))
+        out.append(('mapty-float', s_retype_map(s, rng.randrange(n), 'f'), False))
+        out.append(('mapty-float-all', s_retype_map(s, None, 'f'), False))
+    for o in s_xclass(s):
+        out.append(('xclass', o, False))
+    for _ in range(3):
+        o, kind = s_variant(rng, s)
+        if kind not in ('same', 'perm', 'numty'):
+            out.append((kind, o, False))
+    cases = []
+    for name, o, must in out:
+        if eqt_ok(o) and bounded(o):
+            cases.append({'kind': 'eqt', 'a': s, 'b': o, 'must': must, 'variant': name, 'src': src})
+    return cases
+
+
+def rnd_eqt_cases(rng, count):
+    out = []
+    for _ in range(count):
+        for _try in range(20):
+            s = rnd_stack(rng, rng.choice([0, 1, 1, 2, 2, 3, 4]), False)
+            if bounded(s) and eqt_ok(s):
+                break
+        else:
+            continue
+        vs = eqt_variants(s, rng, 'random-eq')
+        out.extend(rng.sample(vs, min(4, len(vs))))
+    return out
+
+
+def fam_eqt(full):
+    """deterministic: the second family root under every name-coincidence layer, a few two-layer stacks, joint scopes
+    over different roots, scopes after Scope.overwrite with constants of every number type; every variant of each"""
+    import random
+    rng = random.Random(20261001)                   # fixed: the family does not depend on the run's seed
+    root = fam_roots()[1]
+    scopes = [root, {'t': 'dict', 'vals': [], 'vol': []}]
+    layers = fam_layers()
+    for la in layers:
+        scopes.append(fam_apply(root, la))
+    for i, j in ((0, 19), (13, 20), (12, 23), (17, 2), (23, 13), (24, 0)) + (((3, 22), (9, 24), (18, 21)) if full else ()):
+        scopes.append(fam_apply(fam_apply(root, layers[i]), layers[j]))
+    for c in fam_joint_roots(False)[::(7 if full else 23)]:
+        scopes.append(c['scope'])
+    scopes.append(s_overwrite(s_overwrite(root, [['p2', '7'], ['p5', '1/2@f']]), [['p0', '0@t'], ['p6', '3@n'], ['p7', '2@i']]))
+    scopes.append({'t': 'mapped', 'o': root, 'm': [['p5', ['+', ['/', _v('p2'), '2'], ['c', '1/2']]],
+                                                  ['p6', ['min', ['*', _v('p0'), ['c', '3']], ['c', '4']]]]})
+    out = []
+    for s in scopes:
+        if eqt_ok(s) and bounded(s):
+            out.extend(eqt_variants(s, rng, 'family-eq'))
+    return out
+
+
+def fam_volop():
+    """joint scopes built by the real VolatileRepetitionCount.operation from operand scopes over one shared root / two
+    roots / a loop scope; histories with change_constants on either root"""
+    A = {'t': 'dict', 'vals': [['p0', '1'], ['p1', '2']], 'vol': ['p0']}
+    B = {'t': 'dict', 'vals': [['p2', '3'], ['p1', '2']], 'vol': ['p2']}
+    x10 = ['+', ['*', ['c', '10'], _v('p0')], _v('p1')]
+    loopA = {'t': 'range', 'i': {'t': 'mapped', 'o': A, 'm': [['p5', x10]]}, 'n': 'p0', 'v': '4'}
+    W = lambda n, o, e: [n, {'t': 'mapped', 'o': o, 'm': [[n, e]]}]
+    e5, e6 = W('p5', A, x10), W('p6', A, ['*', _v('p1'), ['c', '2']])
+    e7, e4 = W('p7', B, ['+', _v('p2'), _v('p1')]), W('p4', loopA, ['+', _v('p5'), _v('p0')])
+    e3 = W('p3', A, _v('p0'))
+    ca, cb = [['p0', '7']], [['p2', '0@f']]
+    out = []
+    for entries in ([e5, e6], [e5, e7], [e7, e5], [e5, e6, e7], [e4, e5], [e4, e7, e6], [e3], [e3, e5, e7]):
+        for changes in ([ca, cb], [cb, [['p7', '1']], ca + cb]):
+            s = {'t': 'joint', 'l': entries}
+            ops = r4_history(s, changes)
+            if history_bounded(s, ops):
+                out.append({'kind': 'hist', 'scope': s, 'ops': ops, 'src': 'family4', 'via': 'op'})
+    return out
+
+
+def r4_cases(full):
+    return fam_joint_roots(full) + fam_shadow_change(full) + fam_volop() + fam_eqt(full)
+
+
 def exhaustive_small(rng, frac):
     """all stacks of <= 3 layers over 3 names (fixed values), fixed full history"""
     names = NAMES[:3]
@@ -916,7 +1256,7 @@ def gen_cases(rng, tier, ctx):
                           ['as_dict'], ['change', []], ['vol'], ['change', [['p0', '0']]], ['change', [['p0', '0']]],
                           ['as_dict'], ['vol'], ['change', [['p0', '0@f'], ['p1', '2']]], ['as_dict'], ['vol'],
                           ['overwrite', []], ['overwrite', [['p0', '0']]], ['vol'], ['as_dict'], ['len'], ['iter']]})
-    for _ in range(900 * n):
+    for _ in range(800 * n):
         malformed = rng.random() < 0.15
         layers = rng.choice([0, 1, 1, 2, 2, 3, 3, 4, 5, 6])
         for _try in range(20):
@@ -931,11 +1271,18 @@ def gen_cases(rng, tier, ctx):
         cases.extend(family_names(3, third=fam_layers()[:5] + fam_layers()[9:10] + fam_layers()[18:20]))
     else:
         cases.extend(family_names(2, thin=4))
+    cases.extend(r4_cases(tier == 'thorough'))
+    # random: == / hash with number kinds and across classes
+    cases.extend(rnd_eqt_cases(rng, 60 * n))
+    # random stacks whose top is the shape VolatileValue.operation builds: built by the real operation
+    for c in cases:
+        if c['kind'] == 'hist' and c.get('src') == 'random' and is_opshape(c['scope']):
+            c['via'] = 'op'
     if tier == 'thorough':
         cases.extend(exhaustive_small(rng, 0.25))
     else:
         ex = exhaustive_small(rng, 0.0)
-        cases.extend(c for c in ex if rng.random() < 0.18)
+        cases.extend(c for c in ex if rng.random() < 0.15)
     return cases
 
 
@@ -1001,6 +1348,51 @@ def sym_to_json(x):
     raise ValueError('unsupported sympy node %r' % (x,))
 
 
+def sym_to_json_typed(x):
+    """the tree sympy holds with the KIND of every constant (a sympy Float is tagged '@f')"""
+    import functools
+    import sympy
+    if x.is_Symbol:
+        return ['v', str(x)]
+    if x.is_Rational:
+        return ['c', str(F(int(x.p), int(x.q)))]
+    if x.is_Float:
+        return ['c', str(F(*float(x).as_integer_ratio())) + '@f']
+    if x.is_Add or x.is_Mul or isinstance(x, (sympy.Min, sympy.Max)):
+        op = '+' if x.is_Add else '*' if x.is_Mul else 'min' if isinstance(x, sympy.Min) else 'max'
+        return functools.reduce(lambda a, b: [op, a, b], [sym_to_json_typed(a) for a in x.args])
+    if x.is_Pow and x.exp.is_Integer and 1 <= abs(int(x.exp)) <= 4:
+        b = sym_to_json_typed(x.base)
+        p = functools.reduce(lambda a, c: ['*', a, c], [b] * abs(int(x.exp)))
+        return p if int(x.exp) > 0 else ['div', ['c', '1'], p]
+    raise ValueError('unsupported sympy node %r' % (x,))
+
+
+_TCANON_CACHE = {}
+
+
+def tcanon(e):
+    """the typed tree sympy holds for e (what Expression.__eq__ compares structurally); value-checked against e"""
+    key = ('overwrite:' + e[1]) if (e[0] == 'c' and '@' in e[1]) else e_str(e)
+    c = _TCANON_CACHE.get(key)
+    if c is not None:
+        return c
+    ex = _py_expr(e)
+    c = sym_to_json_typed(ex.underlying_expression)
+    if set(e_vars(c)) != set(ex.variables):
+        raise RuntimeError('harness: sympy reports variables %r for %s' % (ex.variables, key))
+    for k in (1, 2, 3):
+        env = {n: F(3 * i + k, 2) for i, n in enumerate(NAMES)}
+        try:
+            ve = e_eval(e, env, strict=False)
+        except ZeroDivisionError:
+            ve = None
+        if ve is not None and ve != e_eval(c, env, strict=False):
+            raise RuntimeError('harness: %s and the tree sympy holds differ in value' % key)
+    _TCANON_CACHE[key] = c
+    return c
+
+
 _CANON_CACHE = {}
 
 
@@ -1040,7 +1432,13 @@ def build(s, memo=None):
         if key in memo:
             return memo[key]
     if t == 'dict':
-        r = DictScope(FrozenDict((k, _py_value(v)) for k, v in s['vals']), frozenset(s['vol']))
+        which = (len(s['vals']) + 2 * len(s['vol'])) % 3          # all three constructors of DictScope
+        if which == 0:
+            r = DictScope(FrozenDict((k, _py_value(v)) for k, v in s['vals']), frozenset(s['vol']))
+        elif which == 1:
+            r = DictScope.from_mapping({k: _py_value(v) for k, v in s['vals']}, frozenset(s['vol']))
+        else:
+            r = DictScope.from_kwargs(volatile=frozenset(s['vol']), **{k: _py_value(v) for k, v in s['vals']})
     elif t == 'mapped':
         r = MappedScope(build(s['o'], memo), FrozenDict((k, _py_expr(e)) for k, e in s['m']))
     elif t == 'range':
@@ -1050,6 +1448,50 @@ def build(s, memo=None):
     if memo is not None:
         memo[key] = r
     return r
+
+
+def s_labels(s, memo=None, ctr=None):
+    """object identities of build(s): (id, kids) per tree position, equal ids = one Python object (the sharing rule of
+    `build`: identical JSON sub-scopes inside one joint scope are one object)"""
+    if ctr is None:
+        ctr = [0]
+    t = s['t']
+    if memo is None and t == 'joint':
+        memo = {}
+    key = None
+    if memo is not None:
+        key = vlib.canonical_hash(s)
+        if key in memo:
+            return memo[key]
+    if t == 'dict':
+        kids = []
+    elif t == 'mapped':
+        kids = [s_labels(s['o'], memo, ctr)]
+    elif t == 'range':
+        kids = [s_labels(s['i'], memo, ctr)]
+    else:
+        kids = [s_labels(sub, memo, ctr) for _, sub in s['l']]
+    ctr[0] += 1
+    lab = (ctr[0], kids)
+    if memo is not None:
+        memo[key] = lab
+    return lab
+
+
+def is_opshape(s):
+    """the shape VolatileValue.operation builds: a joint scope whose every entry `name` is MappedScope(_, {name: expr})"""
+    return s['t'] == 'joint' and len(s['l']) > 0 and all(
+        sub['t'] == 'mapped' and len(sub['m']) == 1 and sub['m'][0][0] == n for n, sub in s['l'])
+
+
+def build_via_operation(s):
+    """the scope of VolatileRepetitionCount.operation(expression, **operands) for operands (expr_n, build(sub_n)): the
+    real constructor of such joint scopes (qupulse/program/volatile.py)"""
+    from qupulse.program.volatile import VolatileRepetitionCount
+    memo = {}
+    operands = {n: VolatileRepetitionCount(_py_expr(sub['m'][0][1]), build(sub['o'], memo)) for n, sub in s['l']}
+    result = VolatileRepetitionCount.operation(' + '.join(n for n, _ in s['l']), **operands)
+    return result._scope
 
 
 def _err(e):
@@ -1069,6 +1511,20 @@ def _guard(fn):
 
 def _kv(items):
     return sorted([[k, vlib.frac_json(v)] for k, v in items])
+
+
+def _items_values(cur):
+    """items(), cross-checked against values() (the same multiset of values) and Mapping.get"""
+    kv = _kv(cur.items())
+    vals = sorted(vlib.frac_json(v) for v in cur.values())
+    if vals != sorted(v for _, v in kv):
+        raise AssertionError('values() %r is not the multiset of the values of items() %r' % (vals, kv))
+    for k, v in kv[:2]:
+        if vlib.frac_json(cur.get(k, None)) != v:
+            raise AssertionError('get(%r) differs from items()' % k)
+    if cur.get('p_none', 17) != 17:
+        raise AssertionError('get of a missing name does not return the default')
+    return kv
 
 
 def run_impl(case):
@@ -1102,10 +1558,17 @@ def _volx(cur, envs):
     return out
 
 
+def _run_eqt(case):
+    a, b = build(case['a']), build(case['b'])
+    return {'eqt': [bool(a == b), bool(b == a), hash(a) == hash(b), bool(a != b)]}
+
+
 def _run_impl(case):
     from qupulse.parameter_scope import NonVolatileChange
+    if case['kind'] == 'eqt':
+        return _run_eqt(case)
     cur_json = case['scope']
-    cur = build(cur_json)
+    cur = build_via_operation(cur_json) if case.get('via') == 'op' else build(cur_json)
     out = []
     for op in case['ops']:
         k = op[0]
@@ -1120,7 +1583,7 @@ def _run_impl(case):
         elif k == 'keys':
             out.append(_guard(lambda: sorted(cur.keys())))
         elif k == 'items':
-            out.append(_guard(lambda: _kv(cur.items())))
+            out.append(_guard(lambda: _items_values(cur)))
         elif k == 'as_dict':
             out.append(_guard(lambda: _kv(cur.as_dict().items())))
         elif k == 'vol':
@@ -1183,6 +1646,35 @@ def g_scope(s):
     return '(SJoint %s)' % g_list('(%s, %s)' % (g_name(k), g_scope(sub)) for k, sub in s['l'])
 
 
+def g_lab(lab):
+    return '(L %s %s)' % (gN(lab[0]), g_list(g_lab(k) for k in lab[1]))
+
+
+def g_texpr(e):
+    if e[0] == 'c':
+        return '(TConst %s %s)' % (gbool(c_float(e[1])), gQ(V(e[1])))
+    if e[0] == 'v':
+        return '(TVar %s)' % g_name(e[1])
+    if e[0] == '/':
+        return '(TDivC %s %s %s)' % (g_texpr(e[1]), gbool(c_float(e[2])), gQ(V(e[2])))
+    return '(%s %s %s)' % ({'+': 'TAdd', '-': 'TSub', '*': 'TMul', 'min': 'TMin', 'max': 'TMax', 'div': 'TDiv'}[e[0]],
+                           g_texpr(e[1]), g_texpr(e[2]))
+
+
+def g_tscope(s):
+    """a scope with the number kind of its expression constants; every expression as the typed tree sympy holds"""
+    t = s['t']
+    if t == 'dict':
+        return '(TSDict %s %s)' % (g_list('(%s, %s)' % (g_name(k), gQ(V(v))) for k, v in s['vals']),
+                                   g_list(g_name(n) for n in s['vol']))
+    if t == 'mapped':
+        return '(TSMapped %s %s)' % (g_tscope(s['o']),
+                                     g_list('(%s, %s)' % (g_name(k), g_texpr(tcanon(e))) for k, e in s['m']))
+    if t == 'range':
+        return '(TSRange %s %s %s)' % (g_tscope(s['i']), g_name(s['n']), gQ(V(s['v'])))
+    return '(TSJoint %s)' % g_list('(%s, %s)' % (g_name(k), g_tscope(sub)) for k, sub in s['l'])
+
+
 def g_op(op):
     k = op[0]
     if k == 'get':
@@ -1232,6 +1724,8 @@ def g_obs(op, o):
 
 
 def has_div(case):
+    if case['kind'] == 'eqt':
+        return False
     return any('div' in e_ops(e) for e in s_exprs(case['scope'])) or \
         any('div' in e_ops(e) for op in case['ops'] if op[0] == 'eq' for e in s_exprs(op[1]))
 
@@ -1258,24 +1752,46 @@ def dropped_inexact(case, obs):
 
 
 def to_coq(case, obs):
+    if case['kind'] == 'eqt':
+        if 'eqt' not in obs:
+            return 'CCrash'
+        e, e2, h, ne = obs['eqt']
+        if ne == e:                      # `!=` is not the negation of `==`
+            return 'CCrash'
+        return '(CEq %s %s %s %s %s %s)' % (g_tscope(case['a']), g_tscope(case['b']), gbool(case['must']),
+                                            gbool(e), gbool(e2), gbool(h))
     if 'obs' not in obs:
         return 'CCrash'
+    lab = g_lab(s_labels(case['scope']))
     if dropped_inexact(case, obs):
-        return '(CHist %s [] [])' % g_scope(case['scope'])
+        return '(CHist %s %s [] [])' % (g_scope(case['scope']), lab)
     try:
-        return '(CHist %s %s %s)' % (g_scope(case['scope']), g_list(g_op(op) for op in case['ops']),
-                                     g_list(g_obs(op, o) for op, o in zip(case['ops'], obs['obs'])))
+        return '(CHist %s %s %s %s)' % (g_scope(case['scope']), lab, g_list(g_op(op) for op in case['ops']),
+                                        g_list(g_obs(op, o) for op, o in zip(case['ops'], obs['obs'])))
     except KeyError:      # a name outside the table came back from the implementation
         return 'CCrash'
 
 
 # ---------------------------------------------------------------------------------------------------------------------
 def nontrivial(case, obs):
-    s = case['scope']
+    s = case['a'] if case['kind'] == 'eqt' else case['scope']
     return s_depth(s) >= 2 and len(s_kinds(s)) >= 2 and not dropped_inexact(case, obs)
 
 
 def histogram_keys(case, obs):
+    if case['kind'] == 'eqt':
+        s = case['a']
+        keys = ['src:' + case.get('src', '?'), 'depth:%d' % s_depth(s), 'op:eqt']
+        keys += ['layer:' + k for k in sorted(s_kinds(s))]
+        keys.append('eqt:%s:%s' % (case['variant'], obs['eqt'][0] if 'eqt' in obs else sorted(obs)[0]))
+        return sorted(set(keys))
+    s = case['scope']
+    if case.get('via') == 'op':
+        return sorted(set(_histogram_keys(case, obs) + ['built-by:VolatileValue.operation']))
+    return _histogram_keys(case, obs)
+
+
+def _histogram_keys(case, obs):
     s = case['scope']
     keys = ['src:' + case.get('src', '?'), 'depth:%d' % s_depth(s)]
     keys += ['layer:' + k for k in sorted(s_kinds(s))]
@@ -1337,6 +1853,8 @@ def _spec_failing(cases, ctx, tag):
 def shrink(case, obs, ctx):
     """drop operations / layers while the specification oracle still rejects the implementation's observation"""
     best = (case, obs)
+    if case['kind'] == 'eqt':
+        return best
     for _round in range(3):
         cands = []
         c = best[0]
@@ -1345,7 +1863,7 @@ def shrink(case, obs, ctx):
         s = c['scope']
         if s['t'] in ('mapped', 'range'):
             inner = s['o'] if s['t'] == 'mapped' else s['i']
-            cands.append(dict(c, scope=inner, ops=[op for op in c['ops'] if op[0] != 'eq']))
+            cands.append(dict(c, scope=inner, ops=[op for op in c['ops'] if op[0] != 'eq'], via=None))
         cands = [x for x in cands if x['ops']]
         if not cands:
             break
